@@ -34,13 +34,14 @@ def make_fault(excname, where):
 class OpCtx:
     """Per-op fault context of the calling thread."""
 
-    __slots__ = ("plan", "lib_calls", "flt_calls", "fired", "lib_names")
+    __slots__ = ("plan", "lib_calls", "flt_calls", "alloc_calls", "fired", "lib_names")
 
     def __init__(self, plan=None):
-        # plan: {"lib": (n, excname) , "flt": (n, excname)}
+        # plan: {"lib": (n, excname) , "flt": (n, excname), "alloc": (n, excname)}
         self.plan = plan or {}
         self.lib_calls = 0
         self.flt_calls = 0
+        self.alloc_calls = 0
         self.fired = []
         self.lib_names = []
 
@@ -59,7 +60,8 @@ def get_ctx():
 class counters:
     lib_calls = 0
     flt_calls = 0
-    fired = {"lib": 0, "flt": 0}
+    alloc_calls = 0
+    fired = {"lib": 0, "flt": 0, "alloc": 0}
 
 
 def _lib_hit(name):
@@ -73,6 +75,48 @@ def _lib_hit(name):
         ctx.fired.append(("lib", name, ctx.lib_calls))
         counters.fired["lib"] += 1
         raise make_fault(pl[1], f"lib.{name} call #{ctx.lib_calls}")
+
+
+def _alloc_hit(name):
+    counters.alloc_calls += 1
+    ctx = getattr(_tls, "ctx", None)
+    if ctx is None:
+        return
+    ctx.alloc_calls += 1
+    pl = ctx.plan.get("alloc")
+    if pl is not None and pl[0] == ctx.alloc_calls:
+        ctx.fired.append(("alloc", name, ctx.alloc_calls))
+        counters.fired["alloc"] += 1
+        raise make_fault(pl[1], f"{name} call #{ctx.alloc_calls} in a backend wrapper")
+
+
+class BackendModuleProxy:
+    """Stands in for the ``numpy`` / ``ak`` *module global* of a vector backend module: a few allocation /
+    assembly functions (result wrapping, constructors, reductions) count and can fail; everything else -
+    types, ufunc objects used in identity tests, constants - is the real attribute."""
+
+    def __init__(self, real, names, label):
+        object.__setattr__(self, "_real", real)
+        object.__setattr__(self, "_names", frozenset(names))
+        object.__setattr__(self, "_label", label)
+        object.__setattr__(self, "_cache", {})
+
+    def __getattr__(self, name):
+        real = object.__getattribute__(self, "_real")
+        if name not in object.__getattribute__(self, "_names"):
+            return getattr(real, name)
+        cache = object.__getattribute__(self, "_cache")
+        w = cache.get(name)
+        if w is None:
+            f = getattr(real, name)
+            label = object.__getattribute__(self, "_label")
+
+            def w(*a, __f=f, __n=f"{label}.{name}", **kw):
+                _alloc_hit(__n)
+                return __f(*a, **kw)
+
+            cache[name] = w
+        return w
 
 
 class SimLib:
@@ -115,6 +159,7 @@ class SimLib:
 
 
 _installed = []
+_installed_mods = []
 
 
 def install_simlib(vector):
@@ -157,12 +202,25 @@ def install_simlib(vector):
 
         _installed.append((vaw.VectorAwkward, prop))
         vaw.VectorAwkward.lib = property(lib)
+    # allocation / assembly seam of the backend wrappers (module globals, not a source hook)
+    import awkward
+    import numpy
+
+    if getattr(vnp, "numpy", None) is numpy:
+        vnp.numpy = BackendModuleProxy(numpy, ("empty", "array", "zeros", "sum", "count_nonzero", "logical_or"), "numpy")
+        _installed_mods.append((vnp, "numpy", numpy))
+    if getattr(vaw, "ak", None) is awkward:
+        vaw.ak = BackendModuleProxy(awkward, ("zip", "broadcast_arrays", "transform"), "ak")
+        _installed_mods.append((vaw, "ak", awkward))
 
 
 def uninstall_simlib():
     while _installed:
         cls, real = _installed.pop()
         setattr(cls, "lib", real)
+    while _installed_mods:
+        mod, name, real = _installed_mods.pop()
+        setattr(mod, name, real)
 
 
 def _flt_hit(opname):
